@@ -55,7 +55,7 @@ var (
 func c20Setup() {
 	dir := kit.Scratch("c20")
 	for _, b := range kit.AllBackends {
-		p, err := kit.Compile([]byte(c13Normal+bigRRset()+"+whoami.example.com,192.0.2.250\n+whoamj.example.com,192.0.2.251\n'whoami.example.com,from the database\n"), 1, dir, b, kit.DefaultCompile)
+		p, err := kit.Compile([]byte(c13Normal+bigRRset()+"+whoami.example.com,192.0.2.250\n+whoamj.example.com,192.0.2.251\n+x.whoami.example.com,192.0.2.252\n'x.whoami.example.com,below the whoami name\n'whoami.example.com,from the database\n"), 1, dir, b, kit.DefaultCompile)
 		if err != nil {
 			c20Err = err
 			return
@@ -125,7 +125,7 @@ func c20Start(cfg c20Config, b kit.Backend) (*fbserver.Server, int, error) {
 }
 
 var c20Names = []string{"www.example.com.", "WWW.example.COM.", "big.example.com.", "manyns.example.com.", "x.manyns.example.com.", "example.com.", "nope.example.com.", "sub.example.com.", "other.org.",
-	"whoami.example.com.", "WhoAmI.Example.Com.", "whoamj.example.com.", "x.wild.example.com.", "svc.example.com.", "txt.example.com.", "alias.example.com."}
+	"whoami.example.com.", "WhoAmI.Example.Com.", "whoamj.example.com.", "x.whoami.example.com.", "X.WhoAmI.example.com.", "nope.whoami.example.com.", "a.x.whoami.example.com.", "xwhoami.example.com.", "x.wild.example.com.", "svc.example.com.", "txt.example.com.", "alias.example.com."}
 
 func c20Render(m *dns.Msg) string {
 	if m == nil {
